@@ -368,7 +368,11 @@ cJSON *set_or_call(const struct peer *p, const cJSON *request, enum type what)
 
 	if (unlikely(e->peer->send_message(e->peer, rendered_message,
 	                                   strlen(rendered_message)) != 0)) {
+		/* The request is answered right now, so it must not stay registered and be answered a second time later. */
 		response = create_error_response_from_request(p, request, INTERNAL_ERROR, "reason", "could not send routing information");
+		cancel_routing_request(e->peer, routing_request);
+		cjet_free(rendered_message);
+		goto delete_json;
 	}
 
 	cjet_free(rendered_message);
